@@ -15,6 +15,16 @@ import NibabelModel.Model.C10
   viewing a caller's cell or two headers from viewing the same cell: that the code never gets there is the
   theorem (`Props/C10`: `mem_*`), and `Mem.stepAlias` is the variant of the constructor that skips the copy
   for writable containers.
+
+  OUTSIDE the model: the opposite direction, the caller viewing HEADER memory.  `hdr['dim']` / `hdr.structarr`
+  return live writable NumPy views of `_structarr` by design (that is how `hdr['pixdim'][1:4] = …` works); a
+  caller who keeps such a view and writes through it changes the header.  The model has no operation that
+  hands out a view of a header cell; `setf` covers the writes done through `hdr[name] = …`.
+
+  The ownership skeleton the model rests on — `_structarr` is only ever assigned a fresh default record or
+  `.copy()` of the array wrapping the block, `binaryblock` is `tobytes()`, `copy()` / `as_byteswapped()` go
+  through the constructor on fresh bytes, `from_fileobj` hands the constructor what `read` returned — is
+  extracted from the AST of the working tree on every run (`Generated/C10Own.lean`, `OwnSkel`).
 -/
 namespace Nb.C10
 
@@ -152,6 +162,48 @@ def Mem.runAlias (K : Klass) : Mem → List MOp → Option Mem
     match m.stepAlias K op with
     | none => none
     | some m1 => Mem.runAlias K m1 ops
+
+/-- no operation of the history writes through a container that exposes cell `c` — containers created DURING the
+    history (views of views …) included, which is why this is stated along the run and not on the syntax -/
+def Mem.noPokeOn (K : Klass) : Mem → List MOp → Nat → Prop
+  | _, [], _ => True
+  | m, op :: ops, c =>
+    (∀ b off bs, op = .poke b off bs → m.bufCell b ≠ c) ∧ (∀ m1, m.step K op = some m1 → Mem.noPokeOn K m1 ops c)
+
+/-! ### the ownership skeleton, as extracted from the source -/
+
+/-- where a value assigned to `self._structarr` comes from -/
+inductive Store where
+  | fresh          -- `klass.default_structarr(endianness)`: a newly built default record
+  | copyOfWrap     -- `W.copy()` of an ndarray `W = np.ndarray(shape=(), dtype=…, buffer=binaryblock)`
+  | wrap           -- (on some path) such an ndarray `W` ITSELF: a view of the caller's block
+  | other
+  deriving DecidableEq, Repr, Inhabited
+
+structure OwnSkel where
+  /-- every assignment to `self._structarr` in `WrapStruct.__init__`, in source order -/
+  ctorStores : List Store
+  /-- assignments to an attribute `_structarr` anywhere else in the modules of the header classes -/
+  otherStores : Nat
+  /-- the `binaryblock` property returns `self._structarr.tobytes()` -/
+  binaryblockTobytes : Bool
+  /-- each distinct `copy()` of the header classes returns `self.__class__(self.binaryblock, …)` -/
+  copyViaCtor : List Bool
+  /-- each distinct `as_byteswapped()`: every return is `self.copy()` or `self.__class__(<…>.tobytes(), …)` -/
+  swapViaCtor : List Bool
+  /-- each distinct `from_fileobj()` (MGH excluded): the constructor gets a name bound to `fileobj.read(…)` -/
+  fromFileReads : List Bool
+  deriving DecidableEq, Repr, Inhabited
+
+def OwnSkel.ok (s : OwnSkel) : Bool :=
+  s.ctorStores == [.fresh, .copyOfWrap] && s.otherStores == 0 && s.binaryblockTobytes &&
+  !s.copyViaCtor.isEmpty && s.copyViaCtor.all id && !s.swapViaCtor.isEmpty && s.swapViaCtor.all id &&
+  !s.fromFileReads.isEmpty && s.fromFileReads.all id
+
+/-- the step function the extracted skeleton describes: a constructor that may store the wrapping array follows
+    `stepAlias`, otherwise `step` (the driver runs THIS on the generated skeleton) -/
+def Mem.stepBy (K : Klass) (s : OwnSkel) (m : Mem) (op : MOp) : Option Mem :=
+  if s.ctorStores.contains .wrap then m.stepAlias K op else m.step K op
 
 /-- no header views a caller's cell, no two headers view the same cell, every reference is allocated -/
 def Mem.Sep (m : Mem) : Prop :=
